@@ -339,6 +339,66 @@ pub(crate) mod verif_probe {
                 }
                 Some(json!({"runs": out}))
             }
+            "pause_script" => {
+                // cooperative replay of a PAUSE/RESUME schedule: futures are polled by hand (tokio_test), so every step is deterministic
+                let (pool, _addrs) = bare_pool(&json!(["replica"]), 60);
+                let n = v["waiters"].as_u64().unwrap() as usize;
+                let pool = Arc::new(pool);
+                let mut tasks = vec![];
+                for _ in 0..n {
+                    let p = pool.clone();
+                    tasks.push(tokio_test::task::spawn(async move { p.wait_paused().await }));
+                }
+                let mut done = vec![false; n];
+                for st in v["script"].as_array().unwrap() {
+                    let st = st.as_str().unwrap();
+                    if st == "pause" { pool.pause(); }
+                    else if st == "resume" { pool.resume(); }
+                    else if st.starts_with("poll") {
+                        let i: usize = st[4..].parse().unwrap();
+                        if !done[i] { if tasks[i].poll().is_ready() { done[i] = true; } }
+                    }
+                }
+                // final: everybody gets another chance to run
+                for i in 0..n { if !done[i] { if tasks[i].poll().is_ready() { done[i] = true; } } }
+                Some(json!({"done": done, "paused": pool.paused()}))
+            }
+            "pause_stress" => {
+                // two OS threads released together by a spin barrier: one polls wait_paused() once, the other runs resume();
+                // start offsets are swept so that RESUME lands at every point inside the waiter's first poll.
+                let iters = v["iters"].as_u64().unwrap_or(200000);
+                let mut stuck = 0u64;
+                let mut example = json!(null);
+                for it in 0..iters {
+                    let (pool, _a) = bare_pool(&json!(["replica"]), 60);
+                    let pool = Arc::new(pool);
+                    pool.pause();
+                    let go = Arc::new(AtomicBool::new(false));
+                    let (p1, g1) = (pool.clone(), go.clone());
+                    let d1 = (it % 64) as u32;
+                    let d2 = ((it / 64) % 64) as u32;
+                    let waiter = std::thread::spawn(move || {
+                        let mut t = tokio_test::task::spawn(async move { p1.wait_paused().await });
+                        while !g1.load(Ordering::Acquire) { std::hint::spin_loop(); }
+                        for _ in 0..d1 { std::hint::spin_loop(); }
+                        let ready = t.poll().is_ready();
+                        (t, ready)
+                    });
+                    let (p2, g2) = (pool.clone(), go.clone());
+                    let resumer = std::thread::spawn(move || {
+                        while !g2.load(Ordering::Acquire) { std::hint::spin_loop(); }
+                        for _ in 0..d2 { std::hint::spin_loop(); }
+                        p2.resume();
+                    });
+                    go.store(true, Ordering::Release);
+                    resumer.join().unwrap();
+                    let (mut t, ready) = waiter.join().unwrap();
+                    // RESUME has completed: the waiter must be able to finish now
+                    let done = ready || t.poll().is_ready();
+                    if !done && !pool.paused() { stuck += 1; example = json!({"iteration": it, "offsets": [d1, d2]}); break; }
+                }
+                Some(json!({"stuck": stuck, "example": example}))
+            }
             "pool_try_unban" => {
                 let (pool, addrs) = bare_pool(&v["roles"], v["ban_time"].as_i64().unwrap());
                 let now = chrono::offset::Utc::now().naive_utc();
